@@ -343,7 +343,17 @@ func c08Run(c *fw.Ctx, i int) {
 	n := r.Range(1, 4)
 	var ins [][]byte
 	var kinds []string
-	if r.Chance(1, 1500) {
+	if kind.codec == "av1" && r.Chance(1, 5) {
+		// free space at a LEB128 size-class boundary when a large OBU starts (see C13's boundary stratum)
+		bm, obus := c13BoundaryCase(r)
+		var in []byte
+		for k := range obus {
+			in = append(in, obus[k].Raw(true)...)
+		}
+		c08Instance(c, kind, bm, [][]byte{in}, []string{"leb128-boundary"})
+		return
+	}
+	if r.Chance(1, 400) {
 		// one input that needs more than 65535 fragments at a tiny MTU
 		mtu = r.Pick(1, 2, 3, 4, 5, 6, 8, 12)
 		in := r.Bytes(r.Pick(65536, 65537, 66000, 70001))
